@@ -194,6 +194,31 @@ func runC06(r *ev.Run) {
 			abortPoints.Add(1)
 			rn.one(h, q, count)
 		}
+		// the same budgets again on ONE instance that is never cleared (as a GUI drives the engine: many
+		// early-aborted searches in a row): legality and the board only
+		if req.TT == 32000 && req.Depth <= 2 {
+			ps := search.New(req.TT)
+			var sa, sb board.VerifSnap
+			for rep := 0; rep < 3; rep++ {
+				for _, k := range budgetPoints(min(total, 40), 200) {
+					q := req
+					q.Nodes = k
+					h.B.VerifSnapshotInto(&sa)
+					res := runSearch(ps, h.B, q)
+					h.B.VerifSnapshotInto(&sb)
+					abortPoints.Add(1)
+					searches.Add(1)
+					if d := snapEqual(&sa, &sb); d != "" {
+						r.Fail("persistent/board-changed", c06Case{Req: q}, "%+v on an instance that was never cleared: the board differs after the search: %s", q, d)
+						return
+					}
+					if cls, msg := judgeMove(h, q, &res); cls != "" {
+						r.Fail("persistent/"+cls, c06Case{Req: q}, "%+v after %d searches on an instance that was never cleared: %s", q, rep*42+k, msg)
+						return
+					}
+				}
+			}
+		}
 		// (c) soft node limit firing at every iteration boundary
 		for _, il := range full.Infos {
 			if il.Complete && il.Nodes > 0 {
